@@ -44,6 +44,35 @@ def wrap(o):
   return obj0(o)
 
 
+class Poison:
+  """value of an equation the algebra cannot express (Unsupported), kept lazily: it is an error only if it reaches an output or a symbolic operation.
+  Opt-in (Interp(lazy_unsupported=True)): sound for VALUE obligations -- a value selected away by a CONCRETE predicate is never used -- but not for definedness
+  obligations (C03), which therefore never enable it."""
+
+  def __init__(self, err):
+    self.err = err
+
+  def __repr__(self):
+    return 'Poison(%s)' % self.err
+
+
+def has_poison(x):
+  return is_sym(x) and any(isinstance(e, Poison) for e in x.reshape(-1))
+
+
+def poison_like(avals, err):
+  outs = []
+  for a in avals:
+    o = np.empty(tuple(a.shape), dtype=object)
+    pz = Poison(err)
+    if o.ndim == 0:
+      o[()] = pz
+    else:
+      o.reshape(-1)[:] = [pz] * o.size
+    outs.append(o)
+  return outs
+
+
 class Interp:
   def __init__(self, alg: Alg, cuts=None, unroll=True, hints=None, on_call=None):
     self.alg = alg
@@ -52,6 +81,8 @@ class Interp:
     self.hints = hints or {}
     self.stats = {'eqns': 0, 'sym_eqns': 0}
     self.concrete_nans = []
+    self.lazy_unsupported = False
+    self._poison_seen = False
     self.on_call = on_call
     self.prims = set()
     self.side_notes = []            # side conditions introduced by contract cuts, to be discharged by the caller
@@ -134,7 +165,32 @@ class Interp:
       env[v] = norm_in(a)
     for eqn in jaxpr.eqns:
       ins = [read(v) for v in eqn.invars]
-      outs = self.eqn(eqn, ins)
+      if not self.lazy_unsupported:
+        outs = self.eqn(eqn, ins)
+      else:
+        pname = eqn.primitive.name
+        tainted = self._poison_seen and any(has_poison(x) for x in ins)
+        passthrough = pname in MOVE or pname == 'select_n' or pname in CALLS
+        if tainted and not passthrough:
+          err = next(e for x in ins if has_poison(x) for e in x.reshape(-1) if isinstance(e, Poison)).err
+          outs = poison_like([v.aval for v in eqn.outvars], err)
+        else:
+          try:
+            outs = self.eqn(eqn, ins)
+          except Unsupported as ex:
+            self._poison_seen = True
+            where = ''
+            try:
+              from jax._src import source_info_util
+              fr = source_info_util.user_frame(eqn.source_info)
+              where = ' at %s:%s' % (fr.file_name.split('/')[-1], fr.start_line) if fr else ''
+            except Exception:      # noqa: BLE001
+              pass
+            outs = poison_like([v.aval for v in eqn.outvars], '%s [%s%s]' % (ex, pname, where))
+          except Exception as ex:      # noqa: BLE001
+            if not tainted:
+              raise
+            outs = poison_like([v.aval for v in eqn.outvars], 'poisoned operand (%s)' % type(ex).__name__)
       for v, o in zip(eqn.outvars, outs):
         if is_sym(o) or isinstance(o, np.ndarray):
           if tuple(o.shape) != tuple(v.aval.shape):
@@ -309,6 +365,8 @@ class Interp:
   def select_n(self, ins):
     A = self.alg
     c, cases = ins[0], ins[1:]
+    if is_sym(c) and all(isc(e) for e in c.reshape(-1)):          # an object array that only holds constants (e.g. any() over a zero axis row)
+      c = np.array([int(e) for e in c.reshape(-1)]).reshape(c.shape)
     if not is_sym(c):
       cs = np.broadcast_arrays(*[self.lift(x) for x in cases])
       ci = np.broadcast_to(np.asarray(c).astype(int), cs[0].shape)
@@ -319,7 +377,14 @@ class Interp:
       return out
     if len(cases) != 2:
       raise Unsupported('symbolic multi-way select_n')
-    return self.ew(lambda cc, a, b: A.ite(cc, b, a), c, *cases)
+
+    def pick(cc, a, b):
+      if isc(cc):                      # element-wise: a constant predicate element selects without looking at the other branch (which may be a lazy error)
+        return b if int(cc) else a
+      if isinstance(a, Poison) or isinstance(b, Poison):
+        return a if isinstance(a, Poison) else b
+      return A.ite(cc, b, a)
+    return self.ew(pick, c, *cases)
 
   def dot_general(self, eqn, ins):
     A = self.alg
